@@ -6,6 +6,7 @@ constructed term / rule premises  (e) claim order discipline  (f) axiom schemas 
 from __future__ import annotations
 
 import ast
+import re
 
 from ..core import machine as M, pymachine as PM
 from ..core.pyeval import PyEval, show
@@ -238,18 +239,13 @@ def wiring(ctx, w: Wiring, meth, op, case, st_mf, ba_mf, racc, where):
                f'StatefulInterpreter.{meth} does not tie its argument(s) {unbound} to a stack slot (no `assert <slot> == {unbound[0]}`): '
                f'the term the generator means and the term the machine uses can differ', where)
         return
-    # `if sum(len(l) for l in [a, b, ...]) == 0` selects the case in which every listed operand is empty
-    for a, b in case['rec']['binds']:
-        for x, y in ((a, b), (b, a)):
-            if y == ('const', 0) and x[0] == 'call' and x[1] == ('name', 'sum') and x[2] and x[2][0][0] == 'comp':
-                comp = x[2][0]
-                if len(comp[3]) == 1 and comp[3][0][1][0] == 'list' and comp[2] == ('call', ('name', 'len'), (('bound', comp[3][0][0]),), ()):
-                    for el in comp[3][0][1][1]:
-                        env[el] = EMPTY
-    # `if not (a or b ...)` / `if not a` on a tuple-typed operand selects the case in which that operand is empty
-    for c, b in case['rec']['conds']:
-        if c[0] == 'param' and b is False and c not in env:
-            env[c] = EMPTY
+    # the condition selecting this encoding may force sequence-typed operands to be empty (`sum(len(l) for l in [..]) == 0`,
+    # `not sum(map(len, ..))`, `not (a or b)`, `not any(..)`, ..): decided by abstract evaluation over EMPTY / NON-EMPTY
+    from ..core.wiring import forced_empty
+    seq_params = [a.arg for a in fn.args.args[1:] if a.annotation is not None and re.search(r'tuple|list|Sequence', ast.unparse(a.annotation))]
+    for p_ in forced_empty(case['rec']['conds'], seq_params):
+        if ('param', p_) not in env:
+            env[('param', p_)] = EMPTY
     kind = _ret_kind(fn)
     pt = PyTerm(w, env)
     py_terms = []
